@@ -8,6 +8,8 @@ import (
 	verifjson "encoding/json"
 	verifmath "math"
 	verifos "os"
+	verifruntime "runtime"
+	verifsync "sync"
 	veriftime "time"
 )
 
@@ -136,13 +138,29 @@ func verifAbstractBytes(n int) []byte {
 	return make([]byte, n)
 }
 
-func verifGo(f func())                     { go f() }
-func verifYield()                          {}
+func verifYield()                          { verifSched() }
 func verifObserve(tag string, vals ...any) {}
 func verifThreads(on bool)                 {}
 func verifTimers(on bool)                  {}
-func verifWaitQuiescent()                  { veriftime.Sleep(300 * veriftime.Millisecond) }
-func verifBlocked() int                    { return 0 }
+
+// verifWaitQuiescent: natively wait until the recorded schedule has reached the harness's own next turn (or its end),
+// then give parked goroutines time to settle.
+func verifWaitQuiescent() {
+	deadline := veriftime.Now().Add(4 * veriftime.Second)
+	for {
+		verifSch.mu.Lock()
+		verifSchInit()
+		done := verifSch.free || verifSch.pos >= len(verifSch.vec) || verifSch.vec[verifSch.pos] == 0
+		verifSch.mu.Unlock()
+		if done || veriftime.Now().After(deadline) {
+			break
+		}
+		veriftime.Sleep(veriftime.Millisecond)
+	}
+	veriftime.Sleep(120 * veriftime.Millisecond)
+}
+
+
 func verifHeldLocks() int                  { return 0 }
 func verifIsNative() bool                  { return true }
 func verifMaxAlloc() int                   { return 0 }
@@ -158,3 +176,155 @@ func verifWake(n int) { veriftime.Sleep(veriftime.Duration(n) * 12 * veriftime.M
 
 // verifSettle lets woken goroutines run until they park again (executor: wait for quiescence; natively a short sleep).
 func verifSettle() { veriftime.Sleep(6 * veriftime.Millisecond) }
+
+// ---- native schedule replay (thread harnesses) ----
+// sv replay compiles instrumented copies of the package's files in which verifSched() precedes every visible
+// synchronisation operation and every go statement is routed through verifSpawn/verifEnter/verifLeave. The recorded
+// vector (replay file "sched") lists, in order, the logical thread that performs each of those operations.
+
+var verifSch struct {
+	mu      verifsync.Mutex
+	cond    *verifsync.Cond
+	vec     []int
+	pos     int
+	ids     map[int64]int
+	next    int
+	arrived map[int]bool
+	exited  map[int]bool
+	prev    int
+	granted veriftime.Time
+	free    bool
+	inited  bool
+}
+
+func verifGoID() int64 {
+	var buf [64]byte
+	n := verifruntime.Stack(buf[:], false)
+	// "goroutine 123 ["
+	var id int64
+	for i := len("goroutine "); i < n && buf[i] >= '0' && buf[i] <= '9'; i++ {
+		id = id*10 + int64(buf[i]-'0')
+	}
+	return id
+}
+
+func verifSchInit() {
+	if verifSch.inited {
+		return
+	}
+	verifSch.inited = true
+	verifSch.cond = verifsync.NewCond(&verifSch.mu)
+	verifSch.ids = map[int64]int{verifGoID(): 0}
+	verifSch.next = 1
+	verifSch.arrived = map[int]bool{}
+	verifSch.exited = map[int]bool{}
+	verifSch.prev = -1
+	verifLoad()
+	verifSch.vec = verifRT.file.Sched
+	if len(verifSch.vec) == 0 {
+		verifSch.free = true
+	}
+	go func() { // watchdog: a diverged replay must not hang
+		veriftime.Sleep(8 * veriftime.Second)
+		verifSch.mu.Lock()
+		if !verifSch.free && verifSch.pos < len(verifSch.vec) {
+			println("VERIF-SCHED-DIVERGED: schedule replay stuck; running free")
+			verifSch.free = true
+		}
+		verifSch.mu.Unlock()
+		verifSch.cond.Broadcast()
+	}()
+}
+
+// verifSpawn allocates the logical id of a goroutine about to be started (called by the parent).
+func verifSpawn() int {
+	verifSch.mu.Lock()
+	verifSchInit()
+	id := verifSch.next
+	verifSch.next++
+	verifSch.mu.Unlock()
+	return id
+}
+
+func verifEnter(tid int) {
+	verifSch.mu.Lock()
+	verifSch.ids[verifGoID()] = tid
+	verifSch.mu.Unlock()
+}
+
+func verifLeave(tid int) {
+	verifSch.mu.Lock()
+	verifSch.exited[tid] = true
+	verifSch.mu.Unlock()
+	verifSch.cond.Broadcast()
+}
+
+func verifGo(f func()) {
+	tid := verifSpawn()
+	go func() {
+		verifEnter(tid)
+		defer verifLeave(tid)
+		f()
+	}()
+}
+
+// verifSched blocks until the recorded schedule grants this goroutine its next visible operation.
+func verifSched() {
+	verifSch.mu.Lock()
+	verifSchInit()
+	if verifSch.free {
+		verifSch.mu.Unlock()
+		return
+	}
+	tid, known := verifSch.ids[verifGoID()]
+	if !known {
+		verifSch.mu.Unlock()
+		return
+	}
+	verifSch.arrived[tid] = true
+	verifSch.cond.Broadcast()
+	for !verifSch.free {
+		if verifSch.pos >= len(verifSch.vec) {
+			verifSch.free = true
+			verifSch.cond.Broadcast()
+			break
+		}
+		if verifSch.vec[verifSch.pos] == tid {
+			// the previous grantee must have finished its operation (arrived at its next gate or exited) or be parked in it
+			p := verifSch.prev
+			if p < 0 || p == tid || verifSch.arrived[p] || verifSch.exited[p] || veriftime.Since(verifSch.granted) > 25*veriftime.Millisecond {
+				verifSch.pos++
+				verifSch.prev = tid
+				verifSch.granted = veriftime.Now()
+				verifSch.arrived[tid] = false
+				verifSch.cond.Broadcast()
+				break
+			}
+			// wait a little for the previous operation to complete or park
+			verifSch.mu.Unlock()
+			veriftime.Sleep(veriftime.Millisecond)
+			verifSch.mu.Lock()
+			continue
+		}
+		// not our turn: if the thread whose turn it is never shows up the watchdog frees everyone
+		verifSch.mu.Unlock()
+		veriftime.Sleep(200 * veriftime.Microsecond)
+		verifSch.mu.Lock()
+	}
+	verifSch.mu.Unlock()
+}
+
+// verifBlocked counts goroutines (other than the harness) that are neither finished nor waiting at a schedule gate,
+// i.e. parked inside an operation. Meaningful after verifWaitQuiescent.
+func verifBlocked() int {
+	verifSch.mu.Lock()
+	defer verifSch.mu.Unlock()
+	verifSchInit()
+	n := 0
+	for tid := 1; tid < verifSch.next; tid++ {
+		if !verifSch.exited[tid] && !(verifSch.arrived[tid] && !verifSch.free) {
+			n++
+		}
+	}
+	return n
+}
